@@ -768,6 +768,10 @@ class SegmentationImage:
 
         labels = np.atleast_1d(labels)
         if labels.size == 0:
+            # nothing to reassign, but relabel=True still asks for
+            # consecutive labels
+            if relabel and self.nlabels > 0:
+                self.relabel_consecutive()
             return
 
         dtype = self.data.dtype  # keep the original dtype
